@@ -219,6 +219,14 @@ func (env *SpecEnv) expr(x *SExpr) SV {
 			return SV{t: fmt.Sprintf("(select (%s_arr %s) %s)", a.sort, a.t, i.t), sort: g.sliceElem[a.sort], gt: et}
 		}
 		if kv, ok := g.mapKV[a.sort]; ok {
+			// Go semantics: the zero value for a key that is not in the map (integer- and bool-valued maps; other value sorts
+			// keep the raw select: their zero term needs the Go type)
+			if kv[1] == "Int" {
+				return SV{t: fmt.Sprintf("(ite (select (%s_dom %s) %s) (select (%s_val %s) %s) 0)", a.sort, a.t, i.t, a.sort, a.t, i.t), sort: kv[1]}
+			}
+			if kv[1] == "Bool" {
+				return SV{t: fmt.Sprintf("(and (select (%s_dom %s) %s) (select (%s_val %s) %s))", a.sort, a.t, i.t, a.sort, a.t, i.t), sort: kv[1]}
+			}
 			return SV{t: fmt.Sprintf("(select (%s_val %s) %s)", a.sort, a.t, i.t), sort: kv[1]}
 		}
 		if strings.HasPrefix(a.sort, "(Array ") {
@@ -365,6 +373,23 @@ func (e *Enc) resolveLocal(name string, at *ssa.BasicBlock, env *SpecEnv) (SV, b
 		}
 		if best != nil {
 			return SV{t: e.val(best), sort: e.g().SortOf(best.Type()), gt: best.Type()}, true
+		}
+	}
+	// 0. rangeindex_Lk: the index of the enclosing range loop Lk (inner loop clauses that speak about the outer position)
+	if strings.HasPrefix(name, "rangeindex_") {
+		for _, li := range e.loops {
+			if li.name != strings.TrimPrefix(name, "rangeindex_") {
+				continue
+			}
+			for _, ins := range li.head.Instrs {
+				phi, ok := ins.(*ssa.Phi)
+				if !ok {
+					break
+				}
+				if phi.Comment == "rangeindex" {
+					return SV{t: e.vals[phi], sort: "Int", gt: phi.Type()}, true
+				}
+			}
 		}
 	}
 	// 1. phi at the loop head with that comment
